@@ -224,6 +224,9 @@ func emitDataset(out *Out, r *Rng, hs HSpec) {
 		if s := multiReferenced(ds); s != "" {
 			why = append(why, "subject "+s+" is the object of two quads of its graph but the dataset was accepted")
 		}
+		if s := selfReferencedWithFields(ds); s != "" {
+			why = append(why, "subject "+s+" refers to itself and has other quads (which would be pathed below the self reference) but the dataset was accepted")
+		}
 	}
 	c.Prop = propOf(why)
 	setCurrent(nil, nil)
@@ -251,6 +254,27 @@ func multiReferenced(ds *ld.RDFDataset) string {
 			}
 			if n >= 2 {
 				return s
+			}
+		}
+	}
+	return ""
+}
+
+// a subject with a quad whose object is the subject itself, and at least one other quad
+func selfReferencedWithFields(ds *ld.RDFDataset) string {
+	for _, qs := range ds.Graphs {
+		for _, q := range qs {
+			if _, isL := q.Object.(*ld.Literal); isL {
+				continue
+			}
+			s, o := fmt.Sprint(nodeJ(q.Subject)), nodeJ(q.Object).(J)
+			if fmt.Sprint(J{"t": o["t"], "v": o["v"]}) != s {
+				continue
+			}
+			for _, q2 := range qs {
+				if q2 != q && fmt.Sprint(nodeJ(q2.Subject)) == s {
+					return s
+				}
 			}
 		}
 	}
